@@ -47,6 +47,9 @@ def run(ctx: Ctx):
     from .common import value_any_lint
 
     value_any_lint(ctx)
+    from .common import transform_pairing_table
+
+    transform_pairing_table(ctx)
 
 
 def provenance(ctx: Ctx):
